@@ -87,6 +87,18 @@ class Impl(object):
                                     index=None if cls is OkapiIndex else
                                     CosineIndex(Lexicon(*[c15.make_elem(n) for n in cfg["pipeline"]]), family=fam),
                                     family=fam)
+        # DICT_CUTOFF (posting map: dict below, IFBTree from that many documents on) is instance-settable;
+        # small values make the representation switch reachable with a dozen documents
+        self.cutoff = int(cfg["cutoff"]) if cfg.get("cutoff") else None
+        if self.cutoff:
+            self.base.DICT_CUTOFF = self.cutoff
+            mk0 = self.mk
+
+            def mk():
+                t = mk0()
+                t.index.DICT_CUTOFF = self.cutoff
+                return t
+            self.mk = mk
         self.current = {}
 
     def obj(self, c):
@@ -155,7 +167,7 @@ def cfgdict(case):
     for c in case.get("cfg", []):
         if c[1] == "pipeline":
             d["pipeline"] = c[2:]
-        elif c[1] in ("backend", "family", "vocab"):
+        elif c[1] in ("backend", "family", "vocab", "cutoff"):
             d[c[1]] = str(c[2])
     return d
 
@@ -377,15 +389,17 @@ def gen(rng, tier, idx):
                     continue
             keep.append(c)
         cmds = keep
-    return make_case(PIPELINES[pl], backend, fam, vocab, cmds)
+    return make_case(PIPELINES[pl], backend, fam, vocab, cmds, cutoff=rng.choice([None, None, 2, 3, 5]))
 
 
-def make_case(pipeline, backend, fam, vocab, cmds):
+def make_case(pipeline, backend, fam, vocab, cmds, cutoff=None):
     chars = c15.case_chars(cmds, allow_sigma=True)      # generated cases never contain U+03A3; a witness does
     cfg = c15.table_cfg(chars) + [["cfg", "stop"] + [enc(w) for w in c15.stops()],
                                   ["cfg", "pipeline"] + list(pipeline),
                                   ["cfg", "space"] + ["%x" % c for c in SPACES],
                                   ["cfg", "backend", backend], ["cfg", "family", fam], ["cfg", "vocab", vocab]]
+    if cutoff:
+        cfg.append(["cfg", "cutoff", cutoff])
     return {"session": "text", "cfg": cfg, "cmds": cmds}
 
 
@@ -460,7 +474,8 @@ def shrink_more(case, fails):
     cmds = [list(c) for c in case["cmds"]]
 
     def mk(cm):
-        return make_case(cd["pipeline"], cd.get("backend", "okapi"), cd.get("family", "64"), cd.get("vocab", "small"), cm)
+        return make_case(cd["pipeline"], cd.get("backend", "okapi"), cd.get("family", "64"), cd.get("vocab", "small"), cm,
+                         cutoff=int(cd["cutoff"]) if cd.get("cutoff") else None)
     changed = True
     rounds = 0
     while changed and rounds < 3:
